@@ -90,6 +90,18 @@ def regen_fs_steps(status):
     _one('fs_steps', 'TallyVerif/Gen/FsSteps.lean', 'TallyVerif.Gen.FsSteps', produce, status)
 
 
+def regen_modifier_tables(status):
+    from .translate import modifier_tables
+
+    def produce():
+        src = common.read(os.path.join(common.SRC, 'modifier_parser.py'))
+        text, meta = modifier_tables.translate(src)
+        meta['input_sha'] = common.sha(text)
+        return text, meta
+
+    _one('modifier_tables', 'TallyVerif/Gen/ModifierTables.lean', 'TallyVerif.Gen.ModifierTables', produce, status)
+
+
 def regen_all():
     status = {}
     regen_classification(status)
@@ -97,4 +109,5 @@ def regen_all():
     regen_expr_tables(status)
     regen_fmt_tables(status)
     regen_fs_steps(status)
+    regen_modifier_tables(status)
     return status
